@@ -55,6 +55,12 @@ func (p *ruleParser) formula(e ast.Expr) *F {
 		case token.LOR:
 			return Or(p.formula(x.X), p.formula(x.Y))
 		case token.EQL, token.NEQ, token.LSS, token.GTR, token.LEQ, token.GEQ:
+			if nx, ny, ok := subZero(x.X, x.Y, func(e ast.Expr) bool {
+				bl, ok := ast.Unparen(e).(*ast.BasicLit)
+				return ok && bl.Value == "0"
+			}, func(ast.Expr) bool { return true }, func(e ast.Expr) ast.Expr { return ast.Unparen(e) }); ok {
+				return p.formula(&ast.BinaryExpr{X: nx, Op: x.Op, Y: ny})
+			}
 			l, r := p.term(x.X), p.term(x.Y)
 			lc, rc := p.constOf(x.X, l), p.constOf(x.Y, r)
 			if x.Op == token.EQL || x.Op == token.NEQ {
